@@ -280,7 +280,7 @@ MODNAMES = [["ma", "mb", "mc"], ["zc", "yb", "xa"]]     # ascending / descending
 _PLACEMENTS = [p for p in itertools.product(range(3), repeat=4) if p[0] == 0 and all(p[i] <= p[i + 1] <= p[i] + 1 for i in range(3))]
 
 
-def gen_project(blists, placement, style, rev, defmask):
+def gen_project(blists, placement, style, rev, defmask, shadow_root=False):
     """class i lives in module placement[i]; a base in another module is named through
     style 0: from pkg.M import B / 1: import pkg.M as al_M ... al_M.B / 2: import pkg.M ... pkg.M.B"""
     names = MODNAMES[rev]
@@ -308,18 +308,19 @@ def gen_project(blists, placement, style, rev, defmask):
         mods[k].append("class %s%s:\n%s" % (NAMES[i], "(" + ", ".join(refs) + ")" if refs else "", body))
     sources = {"pkg": ("", True)}
     for k in mods:
-        sources["pkg." + names[k]] = ("\n".join(imports[k]) + "\n" + "".join(mods[k]), False)
+        extra = "pkg = 1\n" if (shadow_root and style != 2 and imports[k]) else ""     # a local name equal to the root package's
+        sources["pkg." + names[k]] = ("\n".join(imports[k]) + "\n" + extra + "".join(mods[k]), False)
     where = {NAMES[i]: "pkg." + names[placement[i]] for i in range(len(blists))}
     return sources, where
 
 
-def check_multimodule(blists, placement, style, rev, defmask):
+def check_multimodule(blists, placement, style, rev, defmask, shadow_root=False):
     try:
         for c in range(len(blists)):
             ref_mro(c, {i: bs for i, bs in enumerate(blists)})
     except ValueError:
         return True          # inconsistent hierarchies are K05b's subject (one module, no import failure)
-    sources, where = gen_project(blists, placement, style, rev, defmask)
+    sources, where = gen_project(blists, placement, style, rev, defmask, shadow_root)
     pym = PJ.run_cpython(sources)
     s = PJ.build(sources)
     if [m for sec, m, _t in s.msgs if sec == "mro"]:
@@ -349,13 +350,14 @@ def check_multimodule(blists, placement, style, rev, defmask):
     timeout=(240, 1800), cls="E", tracing="concrete-after-choice", twin="first",
     code=["pydoctor.model.compute_mro (two-pass base resolution)", "pydoctor.model.Class._init_mro/mro/find", "pydoctor.astbuilder.ModuleVistor.visit_ClassDef/visit_Import/visit_ImportFrom",
           "pydoctor.model.System.process/getProcessedModule", "pydoctor.model.Documentable.resolveName/expandName"],
-    bounds={"quick": "4 classes, all 160 ordered-base hierarchies (consistent ones) x 7 placements over <=3 modules of one package (later classes in the same or the next module) x 3 ways of naming a base in another module (from-import, aliased module import, dotted module import) x module names sorting before/after their dependencies x 2 member placements",
+    bounds={"quick": "4 classes, all 160 ordered-base hierarchies (consistent ones) x 7 placements over <=3 modules of one package (later classes in the same or the next module) x 3 ways of naming a base in another module (from-import, aliased module import, dotted module import) x module names sorting before/after their dependencies x 2 member placements; plus a variant where the importing module has a local name equal to the root package's",
             "thorough": "same with 4 member placements"},
     outside="import cycles between the modules (C06), re-exports (C07), more than 3 modules",
 )
-def h_mro_multimodule(s1: int, s2: int, s3: int, dsel: int) -> bool:
+def h_mro_multimodule(s1: int, s2: int, s3: int, dsel: int, shadow_root: bool) -> bool:
     """
     pre: 0 <= s1 <= 1 and 0 <= s2 <= 4 and 0 <= s3 <= 15 and 0 <= dsel <= NDSEL - 1
+    pre: (not shadow_root) or (PART is not None and PART[1] != 2 and dsel == 0)
     post: _
     """
     pi, style, rev = PART if PART is not None else [3, 1, 1]
@@ -365,7 +367,7 @@ def h_mro_multimodule(s1: int, s2: int, s3: int, dsel: int) -> bool:
     dsel = pick(dsel, 0, NDSEL - 1)
     with NoTracing():
         blists = [[], _SUBS[1][s1], _SUBS[2][s2], _SUBS[3][s3]]
-        ok = check_multimodule(blists, _PLACEMENTS[pi], style, rev, [0b0001, 0b0110, 0b1111, 0b1001][dsel])
+        ok = check_multimodule(blists, _PLACEMENTS[pi], style, rev, [0b0001, 0b0110, 0b1111, 0b1001][dsel], pickb(shadow_root))
     return done(ok)
 
 
